@@ -207,6 +207,22 @@ CHECKS = {
         "get_internal_cost over split pieces), two were repaired (intermediate-length refusal; NUL byte continuing a lexicon match).",
    technique="TLA+ spec Totality + TLC enumeration of limit compositions at the real constants, replayed on the real tokenizer (S->I); I->S trace validation of recorded outcomes (Trace_Totality)",
    design="4 C03"),
+ "C19": dict(
+   category="model_checking",
+   text="Bindings.tla specifies the Python API as a state machine over named objects with the core library as an oracle: which library result every MorphemeList and every held Morpheme must "
+        "show after every call (tokenize with a per-call mode override and an out list, Morpheme.split, Dictionary.lookup), that the override never changes the tokenizer's mode (also when the call "
+        "fails), that only the target list of a call changes and that only lists sharing its analysed text are invalidated. TLC checks ModeIsStable / OneTarget / ValidListsHoldAnswers over every "
+        "history of <= 3 (thorough 4) calls; every such history is executed on the REAL extension (rebuilt from /repo) with real texts, together with seeded random sessions over 3 configurations, "
+        "field subsets and the 7 projections; after every call all live lists, handles and tokenizer modes are observed and the trace (library results recorded from the Rust core by `vh c19-lib`) "
+        "is validated by TLC, including text[begin:end] = raw surface in code points. Cli.tla specifies the command-line tool as a line-by-line stream processor (terminator stripping, sentence "
+        "splitting, column / -a / -w formats); TLC checks the line discipline for every input <= 4 (6) over {x, CR, LF}, every such input and random multi-line files are fed to the real binary and "
+        "stdout must equal Run(input) computed by TLC from the library's own sentences and morphemes.",
+   note="Trusted: TLC, JSON bridge, the Python driver's reading of accessors, `vh c19-lib` (the core library asked with the same field request). Not covered: the HuggingFace pre-tokenizer "
+        "(see C18), Dictionary construction options, the sudachipy command line wrapper, --split-sentences=only, lines longer than the input limit (the tool aborts). Three genuine defects "
+        "found here were repaired (blank-line terminator, copy_slice input, NUL in lookups).",
+   technique="TLA+ specs Bindings and Cli + TLC over all short call histories / terminator patterns; S->I execution of every enumerated history on the real extension and binary; I->S trace validation "
+             "(Trace_Bindings, Trace_Cli) against results recorded from the Rust core",
+   design="4 C19"),
 }
 
 NOT_YET = "no check registered yet in this revision (work in progress; see DESIGN.md section 8 build order)"
